@@ -50,12 +50,64 @@ def close(a, b, exact):
     return abs(a - b) <= TOL * (1 + abs(b))
 
 
+# ------------------------------------------------------------------------------------------------
+# second tie (DESIGN 2.6): WFQ.put / update_vtime / reset_vtime and VC.put translated from the tree under test on
+# every run (vlib/translate.py, fail closed) into coq/Gen/Extracted_wfq.v / Extracted_vc.v; bridged to wfq_put /
+# update_vtime (Elem/WFQ.v) and vc_put (Elem/VC.v) and to the FPut step of Elem/WFQServer.v by coq/Elem/WFQBridge.v,
+# VCBridge.v; obligations in Props/C14_Bridge.v.  Residue (whitelisted statements, not translated): the loop of
+# reset_vtime over self.weights.keys() (a function parameter `reset_finish`) and the loop of update_vtime summing
+# self.weights[i] over self.active_set (a parameter `active_weight` added to the local); a KeyError of
+# self.weights[c] / self.vticks[c] / a plain dict and a division by a zero weight sum are outside the tie.
+
+WFQ_STATE = [("vtime", "Q"), ("last_time", "Q"), ("arrivals", "Z"), ("finish_times", "mapQ"), ("class_count", "mapZ")]
+SCHED_CONS = [("FxAddToQueue", ""),                                   # self.add_packet_to_queue(packet)
+              ("FxActiveAdd", "(c : Z)"),                             # self.active_set.add(c)
+              ("FxStorePut", "(stamp : Q) (t : Q) (n : Z)")]          # self.store.put(PriorityItem((stamp, t, n), packet))
+SCHED_FX = [("self.add_packet_to_queue(packet)", "FxAddToQueue", [], ("n_active",)),
+            ("self.active_set.add(_1)", "FxActiveAdd", ["Z"]),
+            ("self.store.put(PriorityItem((_1, _2, _3), packet))", "FxStorePut", ["Q", "Q", "Z"])]
+WFQ_READS = [("self.flow2class(packet.flow_id)", "class_id", "Z"),
+             ("self.env.now", "now", "Q"),
+             ("self.active_set", "n_active", "len", "volatile"),
+             ("packet.size", "size", "Z"),
+             ("self.rate", "rate", "Q"),
+             ("self.weights[class_id]", "weight", "Z")]
+WFQ_STATEOPS = [("for class_id in self.weights.keys():\n    self.finish_times[class_id] = 0.0", "finish_times", "reset_finish")]
+WFQ_BINDINGS = [("for i in self.active_set:\n    weight_sum += self.weights[i]", "weight_sum", "active_weight", "Q")]
+VC_STATE = [("arrivals", "Z"), ("vc", "mapQ"), ("aux_vc", "mapQ")]
+VC_READS = [("self.flow2class(packet.flow_id)", "class_id", "Z"),
+            ("self.env.now", "now", "Q"),
+            ("packet.size", "size", "Z"),
+            ("self.vticks[class_id]", "vtick", "Q")]
+
+
+def extracted_wfq(repo):
+    import os
+    from vlib import translate as tr
+    path = os.path.join(repo, "onl", "scheduler", "wfq.py")
+    specs = [tr.FnSpec(path, "WFQ", "put", "gen_WFQ_put", reads=WFQ_READS, effects=SCHED_FX, stateops=WFQ_STATEOPS,
+                       bindings=WFQ_BINDINGS, inline=["reset_vtime", "update_vtime"]),
+             tr.FnSpec(path, "WFQ", "update_vtime", "gen_WFQ_update_vtime", reads=[("self.env.now", "now", "Q")],
+                       bindings=WFQ_BINDINGS),
+             tr.FnSpec(path, "WFQ", "reset_vtime", "gen_WFQ_reset_vtime", stateops=WFQ_STATEOPS)]
+    return tr.gen_module("onl/scheduler/wfq.py: WFQ.put (with reset_vtime / update_vtime in place), update_vtime, reset_vtime",
+                         "wfq_st", "w_", WFQ_STATE, "wfq_fx", SCHED_CONS, specs)
+
+
+def extracted_vc(repo):
+    import os
+    from vlib import translate as tr
+    path = os.path.join(repo, "onl", "scheduler", "virtual_clock.py")
+    specs = [tr.FnSpec(path, "VC", "put", "gen_VC_put", reads=VC_READS, effects=SCHED_FX)]
+    return tr.gen_module("onl/scheduler/virtual_clock.py: VC.put", "vc_st", "v_", VC_STATE, "vc_fx", SCHED_CONS, specs)
+
+
 class WfqPart:
     name = "wfq"
     kinds = ["wfq", "vc", "wfq2", "vc2", "heap"]
     serves = ["C14", "C12", "C08"]
     coq_imports = ["From ONL Require Import Base.Cmp Elem.Packet Elem.StoreQ Elem.HeapList Elem.HeapRun Elem.WFQServer Elem.WFQ Elem.VC."]
-    props_files = {"C14": ["Props/C14.v"], "C12": ["Props/C12_WFQ.v"], "C08": ["Props/C08_WFQ.v"]}
+    props_files = {"C14": ["Props/C14.v", "Props/C14_Bridge.v", "Props/C14_BridgeVC.v"], "C12": ["Props/C12_WFQ.v"], "C08": ["Props/C08_WFQ.v"]}
     weight = 2
     nontrivial_rule = {
         p: ("kinds wfq / vc (84%): one WFQ (60%) or VirtualClock (40%) with 1-4 classes, weights from {1,2,3,4} / dyadic vticks, rates 2^8..2^12, identity "
@@ -77,6 +129,10 @@ class WfqPart:
             "from {1,2,3,4} and sizes: there service ORDER, instants and counters are still compared exactly while vtime and "
             "finish_times are compared within 1e-9 relative tolerance (a case in which two stamps tie in Q is then skipped)",
             "VC.vc (a per-class clock the code maintains but never reads) is not modelled",
+            "(C14) vlib/translate.py (Python ast, fail closed; tables above the part class in props/part_wfq.py) regenerates "
+            "coq/Gen/Extracted_wfq.v and Extracted_vc.v from WFQ.put / update_vtime / reset_vtime and VC.put of the tree under test "
+            "before every build; the C14_gen_* theorems (Props/C14_Bridge.v, C14_BridgeVC.v) bridge them to the hand-written model; the two loops over "
+            "self.weights.keys() / self.active_set are whitelisted statements whose meaning is a parameter the bridge instantiates",
             "two-instance cases: run()/send_packet generator objects are renamed (runA, send_packetA, ...) from outside so that the "
             "harness can attribute kernel steps; the model has no state shared between instances by construction (each instance is "
             "its own srv record), which is what the independence monitor checks of the code"]
@@ -90,6 +146,16 @@ class WfqPart:
         "C12": ["packets belong to configured classes; weights, vticks and the rate are positive"],
         "C08": ["packets belong to configured classes; weights, vticks and the rate are positive"]}
     partial = {"C14": [], "C12": [], "C08": []}
+
+    # ---- second tie: regenerate the translated bodies before the Coq build (fail closed) ---------------
+    def pre_build(self, prop_id):
+        if prop_id != "C14":
+            return
+        import os
+        from vlib import framework as fw
+        from vlib import translate as tr
+        tr.write_if_changed(os.path.join(fw.COQ, "Gen", "Extracted_wfq.v"), extracted_wfq(fw.REPO))
+        tr.write_if_changed(os.path.join(fw.COQ, "Gen", "Extracted_vc.v"), extracted_vc(fw.REPO))
 
     # ---- generation ---------------------------------------------------------------------------------
     def gen_case(self, rng, tier, prop_id):
